@@ -8,6 +8,7 @@ import (
 	"context"
 	"encoding/json"
 	"fmt"
+	"os"
 	"regexp"
 	"runtime"
 	"sort"
@@ -72,6 +73,13 @@ func leaked(base map[string]string, wait time.Duration) []string {
 			}
 		}
 		if len(left) == 0 || time.Now().After(deadline) {
+			if f := os.Getenv("VERIF_LEAKDUMP"); f != "" && len(left) > 0 {
+				var all strings.Builder
+				for _, g := range goroutines() {
+					all.WriteString(g + "\n\n")
+				}
+				_ = os.WriteFile(f, []byte(all.String()), 0o644)
+			}
 			sort.Strings(left)
 			return left
 		}
